@@ -221,3 +221,12 @@ Fixpoint api_history (t : ty) (st : value * value) (k : Z) (hs : list hop) (obs 
 
 Definition api_history_case (t : ty) (hs : list hop) (obs : list (Z * value * value)) : list Z :=
   api_history t (default t, default t) 0 hs obs.
+
+(* C01 / C19: a message nobody touched encodes to the canonical image of the default value, in both orders,
+   whichever order is asked for first *)
+Definition fresh_case (t : ty) (le1 be1 le2 be2 : bytes) : list Z :=
+  let wl := wire LE t (ApiSpec.default t) in
+  let wb := wire BE t (ApiSpec.default t) in
+  if beq le1 wl && beq be1 wb && beq le2 wl && beq be2 wb then []
+  else [96; b2z (beq le1 wl); b2z (beq be1 wb); b2z (beq le2 wl); b2z (beq be2 wb)].
+
